@@ -45,6 +45,7 @@ type quatDesc struct {
 	Q1, Q2 []float64 // x y z w
 	V      []float64
 	Exact  bool
+	Rel    float64 `json:",omitempty"` // relative tolerance of a float case when tighter than 1e-9 (tiny-angle stream)
 }
 type rotDesc struct{ A, B []float64 }
 type normDesc struct{ Q []float64 }
@@ -55,10 +56,12 @@ type thetaDesc struct {
 type trsDesc struct {
 	P, S, Q, V []float64
 	Exact      bool
+	Rel        float64 `json:",omitempty"`
 }
 type trsCtorDesc struct {
 	P, S, Q, D, V []float64
 	Exact         bool
+	Rel           float64 `json:",omitempty"`
 }
 type meshDesc struct {
 	Op      int // 0 Rotate 1 Translate 2 Scale 3 ApplyTRS
@@ -66,6 +69,7 @@ type meshDesc struct {
 	Ps      [][]float64
 	Idx     []int
 	Exact   bool
+	Rel     float64 `json:",omitempty"`
 }
 type boxPtDesc struct {
 	C, Size, Pt []float64
@@ -91,6 +95,15 @@ type bigDesc struct {
 	Workers int // GOMAXPROCS while the array-level function runs
 	P, S, Q []float64
 }
+// the remaining exported AABB methods: Min / Max / Size / Volume / Intersects(other) / Expand(amount)
+type boxMiscDesc struct {
+	C, Size, OC, OSize []float64
+	Amount             float64
+	Exact              bool
+}
+
+// MatFromDirs(up, forward, offset)
+type matDirsDesc struct{ Up, Fwd, Off []float64 }
 type closestDesc struct {
 	C, Size, V []float64
 	Probes     [][]float64
@@ -123,11 +136,17 @@ func boxParts(b geometry.AABB) (c, e []float64) {
 	return fromV(b.Center()), []float64{s.X() / 2, s.Y() / 2, s.Z() / 2}
 }
 
-func tolOf(exact bool, scale float64) string {
+func tolOf(exact bool, scale float64) string { return tolRel(exact, 0, scale) }
+
+// tolRel: the absolute tolerance handed to the Coq evaluator: 0 on the exact stream, else rel (default 1e-9) x magnitude
+func tolRel(exact bool, rel, scale float64) string {
 	if exact {
 		return "0%Q"
 	}
-	return qone(1e-9 * scale)
+	if rel <= 0 {
+		rel = 1e-9
+	}
+	return qone(rel * scale)
 }
 
 func keyOf(kind string, d interface{}) string {
@@ -190,6 +209,9 @@ func doMat2(d mat2Desc) {
 	})
 	m := (1 + maxabs(d.A)) * (1 + maxabs(d.B))
 	coq := ""
+	if crash == "" && finite(flat(sum, prod)...) {
+		crash = refMat2(d.A, d.B, sum, prod, relOf(d.Exact, 0))
+	}
 	ok := crash == "" && finite(flat(sum, prod)...)
 	if ok {
 		coq = fmt.Sprintf("CMat2 %s %s %s %s %s", tolOf(d.Exact, m), qlist(d.A), qlist(d.B), qlist(sum), qlist(prod))
@@ -213,6 +235,9 @@ func doMat1(d mat1Desc) {
 	m := 1 + maxabs(d.A)
 	scale := m * m * m * m * (1 + maxabs(d.V))
 	coq := ""
+	if crash == "" && finite(det) && finite(flat(inv, mp)...) {
+		crash = refMat1(d.A, d.V, det, d.Inv, inv, mp, relOf(d.Exact, 0))
+	}
 	ok := crash == "" && finite(det) && finite(flat(inv, mp)...)
 	if ok {
 		coq = fmt.Sprintf("CMat1 %s %s %s %s %s %s %s", tolOf(d.Exact, scale), qlist(d.A), qlist(d.V), qone(det),
@@ -233,10 +258,13 @@ func doMat1(d mat1Desc) {
 
 func doQuat(d quatDesc) {
 	var prod, r2, r12, r1 []float64
+	arrOK := true
 	crash := guard(func() {
 		q1, q2, v := toQ(d.Q1), toQ(d.Q2), toV(d.V)
 		p := q1.Multiply(q2)
 		prod = fromQ(p)
+		arrOK = p.ToArr() == [4]float64{prod[0], prod[1], prod[2], prod[3]} && q2.Vector4().X() == d.Q2[0] &&
+			q2.Vector4().Y() == d.Q2[1] && q2.Vector4().Z() == d.Q2[2] && q2.Vector4().W() == d.Q2[3]
 		w := q2.Rotate(v)
 		r2 = fromV(w)
 		r12 = fromV(p.Rotate(v))
@@ -245,9 +273,15 @@ func doQuat(d quatDesc) {
 	n1, n2 := 1+maxabs(d.Q1), 1+maxabs(d.Q2)
 	scale := n1 * n1 * n2 * n2 * n2 * n2 * (1 + maxabs(d.V)) * (1 + maxabs(d.V)) * 16
 	coq := ""
+	if crash == "" && finite(flat(prod, r2, r12, r1)...) {
+		crash = refQuat(d.Q1, d.Q2, d.V, prod, r2, r12, r1, relOf(d.Exact, d.Rel))
+		if crash == "" && !arrOK {
+			crash = "Quaternion.ToArr / Vector4 do not return the components (x, y, z, w) of the quaternion"
+		}
+	}
 	ok := crash == "" && finite(flat(prod, r2, r12, r1)...)
 	if ok {
-		coq = fmt.Sprintf("CQuat %s %s %s %s %s %s %s %s", tolOf(d.Exact, scale), qlist(d.Q1), qlist(d.Q2), qlist(d.V),
+		coq = fmt.Sprintf("CQuat %s %s %s %s %s %s %s %s", tolRel(d.Exact, d.Rel, scale), qlist(d.Q1), qlist(d.Q2), qlist(d.V),
 			qlist(prod), qlist(r2), qlist(r12), qlist(r1))
 	}
 	add("quat", d, nonzero(d.Q1[:3], d.Q2[:3], d.V), coq, crash, ok)
@@ -362,9 +396,13 @@ func doTrs(d trsDesc) {
 		out = fromV(t.Transform(toV(d.V)))
 	})
 	coq := ""
+	if crash == "" && finite(out...) {
+		want, mag := refTrs(d.P, d.S, d.Q, d.V)
+		crash = vecOff("New(p,q,s).Transform(v)", out, want, relOf(d.Exact, d.Rel)*mag)
+	}
 	ok := crash == "" && finite(out...)
 	if ok {
-		coq = fmt.Sprintf("CTrs %s %s %s %s %s %s", tolOf(d.Exact, trsScale(d.P, d.S, d.Q, d.V)), qlist(d.P), qlist(d.S),
+		coq = fmt.Sprintf("CTrs %s %s %s %s %s %s", tolRel(d.Exact, d.Rel, trsScale(d.P, d.S, d.Q, d.V)), qlist(d.P), qlist(d.S),
 			qlist(d.Q), qlist(d.V), qlist(out))
 	}
 	add("trs", d, nonzero(d.P, d.Q[:3], d.V) && (d.S[0] != d.S[1] || d.S[1] != d.S[2]), coq, crash, ok)
@@ -378,11 +416,31 @@ func doTrsCtor(d trsCtorDesc) {
 		oS = fromV(trs.Scale(toV(d.S)).Transform(v))
 		oR = fromV(trs.Rotation(toQ(d.Q)).Transform(v))
 		oT = fromV(trs.New(toV(d.P), toQ(d.Q), toV(d.S)).Translate(toV(d.D)).Transform(v))
+		// the accessors return what the constructor stored
+		if t := trs.New(toV(d.P), toQ(d.Q), toV(d.S)); t.Position() != toV(d.P) || t.Scale() != toV(d.S) || t.Rotation() != toQ(d.Q) {
+			panic("TRS.Position / Scale / Rotation do not return the components given to trs.New")
+		}
 	})
 	coq := ""
+	if crash == "" && finite(flat(oP, oS, oR, oT)...) {
+		rel := relOf(d.Exact, d.Rel)
+		id, one, zero := []float64{0, 0, 0, 1}, []float64{1, 1, 1}, []float64{0, 0, 0}
+		for _, c := range []struct {
+			what       string
+			got        []float64
+			p, s, q, t []float64
+		}{{"Position(p).Transform(v)", oP, d.P, one, id, zero}, {"Scale(s).Transform(v)", oS, zero, d.S, id, zero},
+			{"Rotation(q).Transform(v)", oR, zero, one, d.Q, zero}, {"New(p,q,s).Translate(d).Transform(v)", oT, d.P, d.S, d.Q, d.D}} {
+			want, mag := refTrs(c.p, c.s, c.q, d.V)
+			want = []float64{want[0] + c.t[0], want[1] + c.t[1], want[2] + c.t[2]}
+			if crash = vecOff(c.what, c.got, want, rel*(mag+maxabs(c.t))); crash != "" {
+				break
+			}
+		}
+	}
 	ok := crash == "" && finite(flat(oP, oS, oR, oT)...)
 	if ok {
-		coq = fmt.Sprintf("CTrsCtor %s %s %s %s %s %s %s %s %s %s", tolOf(d.Exact, trsScale(flat(d.P, d.D), d.S, d.Q, d.V)),
+		coq = fmt.Sprintf("CTrsCtor %s %s %s %s %s %s %s %s %s %s", tolRel(d.Exact, d.Rel, trsScale(flat(d.P, d.D), d.S, d.Q, d.V)),
 			qlist(d.P), qlist(d.S), qlist(d.Q), qlist(d.D), qlist(d.V), qlist(oP), qlist(oS), qlist(oR), qlist(oT))
 	}
 	add("trsctor", d, nonzero(d.P, d.S, d.Q[:3], d.D, d.V), coq, crash, ok)
@@ -456,8 +514,32 @@ func doMesh(d meshDesc) {
 	for _, l := range out {
 		ok = ok && finite(l...)
 	}
+	if ok { // Go-side: same length, every position moved as the reference transform moves the point, nothing else touched
+		rel := relOf(d.Exact, d.Rel)
+		if len(out) != len(d.Ps) {
+			crash = fmt.Sprintf("mesh operation %d changed the number of positions: %d -> %d", d.Op, len(d.Ps), len(out))
+		} else if !rest {
+			crash = fmt.Sprintf("mesh operation %d changed the indices, another attribute or the input mesh", d.Op)
+		}
+		for i := 0; i < len(d.Ps) && crash == ""; i++ {
+			p, sc, q := []float64{0, 0, 0}, []float64{1, 1, 1}, []float64{0, 0, 0, 1}
+			switch d.Op {
+			case 0:
+				q = d.Q
+			case 1:
+				p = d.P
+			case 2:
+				sc = d.S
+			default:
+				p, sc, q = d.P, d.S, d.Q
+			}
+			want, mag := refTrs(p, sc, q, d.Ps[i])
+			crash = vecOff(fmt.Sprintf("mesh operation %d, position %d", d.Op, i), out[i], want, rel*mag)
+		}
+		ok = crash == ""
+	}
 	if ok {
-		coq = fmt.Sprintf("CMesh %s %d %s %s %s %s %s %s %s", tolOf(d.Exact, trsScale(d.P, d.S, d.Q, flat(d.Ps...))), d.Op,
+		coq = fmt.Sprintf("CMesh %s %d %s %s %s %s %s %s %s", tolRel(d.Exact, d.Rel, trsScale(d.P, d.S, d.Q, flat(d.Ps...))), d.Op,
 			qlist(d.P), qlist(d.S), qlist(d.Q), qlistlist(d.Ps), qlistlist(out), qlistlist(pw), hx.CoqBool(rest))
 	}
 	add("mesh", d, len(d.Ps) > 0 && nonzero(d.Ps...), coq, crash, ok)
@@ -473,20 +555,44 @@ func probeItems(probes [][]float64, flags func(p []float64) string) string {
 
 func doBoxPt(d boxPtDesc) {
 	var c, e, c2, e2 []float64
-	var flags string
+	var flags, containsOff string
 	var cpt bool
 	crash := guard(func() {
 		old := geometry.NewAABB(toV(d.C), toV(d.Size))
+		if !nonzero(flat(d.C, d.Size)) {
+			old = geometry.NewEmptyAABB() // the same box, through the other constructor
+		}
 		nb := old
 		nb.EncapsulatePoint(toV(d.Pt))
 		c, e = boxParts(old)
 		c2, e2 = boxParts(nb)
 		cpt = nb.Contains(toV(d.Pt))
 		flags = probeItems(d.Probes, func(p []float64) string {
-			return fmt.Sprintf("(%s,%s)", hx.CoqBool(old.Contains(toV(p))), hx.CoqBool(nb.Contains(toV(p))))
+			co, cn := old.Contains(toV(p)), nb.Contains(toV(p))
+			if d.Exact && (co != inBoxTol(c, e, p, 0) || cn != inBoxTol(c2, e2, p, 0)) && containsOff == "" {
+				containsOff = fmt.Sprintf("Contains(%v) = %v for the box centre %v extents %v, and %v for centre %v extents %v", p, co, c, e, cn, c2, e2)
+			}
+			return fmt.Sprintf("(%s,%s)", hx.CoqBool(co), hx.CoqBool(cn))
 		})
 	})
+	if crash == "" {
+		crash = containsOff
+	}
 	coq := ""
+	if crash == "" && finite(flat(c, e, c2, e2)...) {
+		lim := 0.0
+		if !d.Exact {
+			lim = 1e-9 * (1 + maxabs(d.C, d.Size, d.Pt))
+		}
+		if !inBoxTol(c2, e2, d.Pt, lim) || (d.Exact && !cpt) {
+			crash = fmt.Sprintf("the box grown by EncapsulatePoint(%v) is centre %v extents %v: it does not contain the point (Contains: %v)", d.Pt, c2, e2, cpt)
+		}
+		for _, p := range d.Probes {
+			if crash == "" && inBoxTol(c, e, p, 0) && !inBoxTol(c2, e2, p, lim) {
+				crash = fmt.Sprintf("%v was in the box before EncapsulatePoint(%v) and is not in the grown box (centre %v extents %v)", p, d.Pt, c2, e2)
+			}
+		}
+	}
 	ok := crash == "" && finite(flat(c, e, c2, e2)...)
 	if ok {
 		coq = fmt.Sprintf("CBoxPt %s %s %s %s %s %s %s %s", tolOf(d.Exact, 1+maxabs(d.C, d.Size, d.Pt)), qlist(c), qlist(e),
@@ -515,6 +621,17 @@ func doBoxBox(d boxBoxDesc) {
 		})
 	})
 	coq := ""
+	if crash == "" && finite(flat(c, e, bc, be, c2, e2)...) {
+		lim := 0.0
+		if !d.Exact {
+			lim = 1e-9 * (1 + maxabs(d.C, d.Size, d.BC, d.BSize))
+		}
+		for _, p := range d.Probes {
+			if crash == "" && (inBoxTol(c, e, p, 0) || inBoxTol(bc, be, p, 0)) && !inBoxTol(c2, e2, p, lim) {
+				crash = fmt.Sprintf("%v is in one of the two boxes and not in the box grown by EncapsulateBounds (centre %v extents %v)", p, c2, e2)
+			}
+		}
+	}
 	ok := crash == "" && finite(flat(c, e, bc, be, c2, e2)...)
 	if ok {
 		coq = fmt.Sprintf("CBoxBox %s %s %s %s %s %s %s %s", tolOf(d.Exact, 1+maxabs(d.C, d.Size, d.BC, d.BSize)), qlist(c), qlist(e),
@@ -538,6 +655,17 @@ func doBoxFrom(d boxFromDesc) {
 		}
 	})
 	coq := ""
+	if crash == "" && finite(flat(c, e)...) {
+		lim := 0.0
+		if !d.Exact {
+			lim = 1e-9 * (1 + maxabs(d.Pts...))
+		}
+		for _, p := range d.Pts {
+			if crash == "" && !inBoxTol(c, e, p, lim) {
+				crash = fmt.Sprintf("NewAABBFromPoints: %v is not in the resulting box (centre %v extents %v)", p, c, e)
+			}
+		}
+	}
 	ok := crash == "" && finite(flat(c, e)...)
 	if ok {
 		coq = fmt.Sprintf("CBoxFrom %s %s %s %s [%s]", tolOf(d.Exact, 1+maxabs(d.Pts...)), qlistlist(d.Pts), qlist(c), qlist(e),
@@ -641,6 +769,10 @@ func doBig(d bigDesc) {
 	}
 	entry := map[string]int{"trs.TransformArray": 1, "trs.TransformInPlace": 2, "quat.RotateArray": 3}[d.Entry]
 	coq := ""
+	if ok && (mism != 0 || len(out) != d.N) {
+		crash = fmt.Sprintf("%s on %d points: %d results, %d of them differ from the scalar entry point (first at index %d)", d.Entry, d.N, len(out), mism, first)
+		ok = false
+	}
 	if ok {
 		coq = fmt.Sprintf("CBig 0%%Q %d %d %d %d %s %s %s %s [%s]", op, entry, d.N, mism, hx.CoqBool(len(out) == d.N),
 			qlist(d.P), qlist(d.S), qlist(d.Q), strings.Join(items, ";"))
@@ -660,6 +792,27 @@ func doClosest(d closestDesc) {
 		inside = b.Contains(p)
 	})
 	coq := ""
+	if crash == "" && finite(flat(c, e, cp)...) {
+		lim := 0.0
+		if !d.Exact {
+			lim = 1e-9 * (1 + maxabs(d.C, d.Size, d.V))
+		}
+		nonneg := e[0] >= 0 && e[1] >= 0 && e[2] >= 0
+		dist2 := func(a, b []float64) float64 {
+			return (a[0]-b[0])*(a[0]-b[0]) + (a[1]-b[1])*(a[1]-b[1]) + (a[2]-b[2])*(a[2]-b[2])
+		}
+		switch {
+		case nonneg && !inBoxTol(c, e, cp, lim):
+			crash = fmt.Sprintf("ClosestPoint(%v) = %v is not in the box (centre %v extents %v)", d.V, cp, c, e)
+		case nonneg && inBoxTol(c, e, d.V, -lim) && dist2(cp, d.V) > lim*lim:
+			crash = fmt.Sprintf("ClosestPoint(%v) = %v although the point is in the box (centre %v extents %v)", d.V, cp, c, e)
+		}
+		for _, p := range d.Probes {
+			if crash == "" && inBoxTol(c, e, p, 0) && dist2(d.V, cp) > dist2(d.V, p)*(1+1e-9)+lim {
+				crash = fmt.Sprintf("ClosestPoint(%v) = %v, but %v is in the box and nearer", d.V, cp, p)
+			}
+		}
+	}
 	ok := crash == "" && finite(flat(c, e, cp)...)
 	if ok {
 		m := 1 + maxabs(d.C, d.Size, d.V)
@@ -667,6 +820,65 @@ func doClosest(d closestDesc) {
 			hx.CoqBool(inside), qlistlist(d.Probes))
 	}
 	add("closest", d, nonzero(d.Size), coq, crash, ok)
+}
+
+func doBoxMisc(d boxMiscDesc) {
+	var c, e, oc, oe, mn, mx, sz, c3, e3 []float64
+	var vol float64
+	var inter bool
+	crash := guard(func() {
+		b := geometry.NewAABB(toV(d.C), toV(d.Size))
+		o := geometry.NewAABB(toV(d.OC), toV(d.OSize))
+		c, e = boxParts(b)
+		oc, oe = boxParts(o)
+		mn, mx, sz, vol = fromV(b.Min()), fromV(b.Max()), fromV(b.Size()), b.Volume()
+		inter = b.Intersects(o)
+		if fromV(b.Center())[0] != c[0] {
+			panic("Center() differs from the centre")
+		}
+		x := b
+		x.Expand(d.Amount)
+		c3, e3 = boxParts(x)
+	})
+	m := 1 + maxabs(d.C, d.Size, d.OC, d.OSize) + math.Abs(d.Amount)
+	coq := ""
+	if crash == "" && finite(vol) && finite(flat(c, e, oc, oe, mn, mx, sz, c3, e3)...) {
+		lim := relOf(d.Exact, 0) * m
+		overlap := true
+		for i := 0; i < 3; i++ {
+			overlap = overlap && c[i]-e[i] <= oc[i]+oe[i] && oc[i]-oe[i] <= c[i]+e[i]
+			switch {
+			case math.Abs(mn[i]-(c[i]-e[i])) > lim || math.Abs(mx[i]-(c[i]+e[i])) > lim || math.Abs(sz[i]-2*e[i]) > lim:
+				crash = fmt.Sprintf("Min/Max/Size of the box centre %v extents %v are %v %v %v", c, e, mn, mx, sz)
+			case math.Abs(c3[i]-c[i]) > lim || math.Abs(e3[i]-(e[i]+d.Amount/2)) > lim:
+				crash = fmt.Sprintf("Expand(%v) of the box centre %v extents %v gives centre %v extents %v", d.Amount, c, e, c3, e3)
+			}
+		}
+		if w := 8 * e[0] * e[1] * e[2]; crash == "" && math.Abs(vol-w) > relOf(d.Exact, 0)*(math.Abs(w)+1e-300) {
+			crash = offBy("Volume", vol, w, relOf(d.Exact, 0)*math.Abs(w))
+		}
+		if crash == "" && d.Exact && inter != overlap {
+			crash = fmt.Sprintf("Intersects = %v for the boxes [%v +- %v] and [%v +- %v]", inter, c, e, oc, oe)
+		}
+	}
+	ok := crash == "" && finite(vol) && finite(flat(c, e, oc, oe, mn, mx, sz, c3, e3)...)
+	if ok {
+		coq = fmt.Sprintf("CBoxMisc %s %s %s %s %s %s %s %s %s %s %s %s %s", tolOf(d.Exact, m*m*m), qlist(c), qlist(e), qlist(oc), qlist(oe),
+			qone(d.Amount), qlist(mn), qlist(mx), qlist(sz), qone(vol), hx.CoqBool(inter), qlist(c3), qlist(e3))
+	}
+	add("boxmisc", d, nonzero(d.Size, d.OSize), coq, crash, ok)
+}
+
+func doMatDirs(d matDirsDesc) {
+	var m []float64
+	crash := guard(func() { m = fromMat(mat.MatFromDirs(toV(d.Up), toV(d.Fwd), toV(d.Off))) })
+	coq := ""
+	ok := crash == "" && finite(m...)
+	if ok {
+		s := 1 + maxabs(d.Up, d.Fwd, d.Off)
+		coq = fmt.Sprintf("CMatDirs %s %s %s %s %s", qone(1e-9*s*s), qlist(d.Up), qlist(d.Fwd), qlist(d.Off), qlist(m))
+	}
+	add("matdirs", d, true, coq, crash, ok)
 }
 
 // ---------------------------------------------------------------- replay / corpus dispatch
@@ -729,6 +941,14 @@ func dispatch(kind string, raw json.RawMessage) {
 		var d closestDesc
 		un(&d)
 		doClosest(d)
+	case "boxmisc":
+		var d boxMiscDesc
+		un(&d)
+		doBoxMisc(d)
+	case "matdirs":
+		var d matDirsDesc
+		un(&d)
+		doMatDirs(d)
 	}
 }
 
@@ -742,6 +962,7 @@ func main() {
 		return
 	}
 	fixedCases()
+	neutralCases(hx.NewRng(run.Seed + 4242))
 	r := hx.NewRng(run.Seed)
 	for i := 0; i < run.N; i++ {
 		generated(r, i)
